@@ -152,6 +152,9 @@ func registerLibModels(e *Engine) {
 		if truth(fr.i.ps, binop(token.EQL, types.Typ[types.Int64], *p, old)) {
 			*p = nw
 			fr.i.ps.dirty = fr.i.ps.dirty || fr.i.ps.gcells[p]
+			if fr.i.ps.gcells[p] && fr.i.ps.trackW {
+				fr.i.ps.resets = append(fr.i.ps.resets, "atomic compare-and-swap on package-level state at "+fr.i.ps.curPos())
+			}
 			return true
 		}
 		return false
@@ -526,6 +529,44 @@ func registerLibModels(e *Engine) {
 	}
 	in["encoding/json.Valid"] = func(fr *frame, a []value) value {
 		return json.Valid([]byte(fr.i.ps.concretizeStr(bytesToStr(fr.i.ps, a[0]))))
+	}
+
+	// ---------- OPA parser entry points: the linked OPA's real parser on concrete module text ----------
+	const astPkg = "github.com/open-policy-agent/opa/ast"
+	const regoPkgL = "github.com/open-policy-agent/opa/rego"
+	type parsedModule struct{ code value }
+	parse := func(fr *frame, code value) (value, value) {
+		text := fr.i.ps.concretizeStr(code)
+		if msg := regoParseError(text); msg != "" {
+			return (*value)(nil), iface{t: fr.i.eng.namedType(astPkg, "Errors"), v: []value{}}
+		}
+		var cell value = nativeObj{parsedModule{code}}
+		return &cell, iface{}
+	}
+	in[astPkg+".ParseModule"] = func(fr *frame, a []value) value {
+		m, err := parse(fr, a[1])
+		return tuple{m, err}
+	}
+	in[astPkg+".ParseModuleWithOpts"] = in[astPkg+".ParseModule"]
+	mustParse := func(fr *frame, code value) value {
+		m, err := parse(fr, code)
+		if e := err.(iface); e.t != nil {
+			panic(targetPanic{e})
+		}
+		return m
+	}
+	in[astPkg+".MustParseModule"] = func(fr *frame, a []value) value { return mustParse(fr, a[0]) }
+	in[astPkg+".MustParseModuleWithOpts"] = func(fr *frame, a []value) value { return mustParse(fr, a[0]) }
+	// a parsed module handed to rego.New is the same option as its text
+	in[regoPkgL+".ParsedModule"] = func(fr *frame, a []value) value {
+		if p, ok := a[0].(*value); ok && p != nil {
+			if n, ok := (*p).(nativeObj); ok {
+				if pm, ok := n.v.(parsedModule); ok {
+					return mkRegoOpt(regoOpt{"module", "parsed.rego", pm.code})
+				}
+			}
+		}
+		return mkRegoOpt(regoOpt{"other:ParsedModule", nil, nil})
 	}
 
 	// ---------- maps (runtime-linked helper) ----------
